@@ -105,6 +105,27 @@ def r1(p, rep):
                 ok = isinstance(r.value, ast.Name) and r.value.id in code_names
                 rep.add("C04.R1", f"{w.qualname}:graph-returns-code", f"{w.module.rel}:{r.lineno}", ok, f"graph=True returns `{norm(r.value)}`" + ("" if ok else ", which is not the code string of the compiled function"))
         if n_graph == 0:
+            # single exit: `result = code if graph else function(...)` ... `return result`: follow the paths on which the
+            # graph flag is true and look at what the returned name was last bound to
+            byid = {x.id: x for x in cfgw.nodes}
+            verdicts = []
+            for path in cfgw.paths(cfgw.entry, {cfgw.exit.id}, limit=4000):
+                env, is_graph, ret = {}, False, None
+                for nid in path:
+                    nd = byid[nid]
+                    if nd.kind == "edge" and nd.test is not None and nd.polarity is True and isinstance(nd.test, ast.Name) and nd.test.id == "graph":
+                        is_graph = True
+                    if nd.kind == "stmt" and isinstance(nd.ast, ast.Assign) and len(nd.ast.targets) == 1 and isinstance(nd.ast.targets[0], ast.Name):
+                        env[nd.ast.targets[0].id] = nd.ast.value
+                    if nd.kind == "stmt" and isinstance(nd.ast, ast.Return):
+                        ret = nd.ast.value
+                if is_graph:
+                    v = env.get(ret.id) if isinstance(ret, ast.Name) and ret.id not in code_names else ret
+                    verdicts.append(isinstance(v, ast.Name) and v.id in code_names)
+            if verdicts:
+                ok = all(verdicts)
+                rep.add("C04.R1", f"{w.qualname}:graph-returns-code", w.loc, ok, f"on all {len(verdicts)} paths with graph=True the returned value is the code string of the compiled function" if ok else "a path with graph=True returns something other than the code string of the compiled function")
+                continue
             # `return helper(graph, function, code, tensor_args)`: the helper returns its code parameter under graph
             ok = False
             for c in calls:
